@@ -117,10 +117,18 @@ pub fn version(r: &mut Rng) -> Version {
 
 /// A pool of versions around one tuple, rich in ties, immediate successors and `-0` bounds.
 pub fn tie_pool(r: &mut Rng) -> Vec<Version> {
-    let (mut ma, mut mi, pa) = (component(r), component(r), component(r).min(MAX_SAFE_INTEGER - 2));
+    let (mut ma, mut mi, mut pa) = (component(r), component(r), component(r).min(MAX_SAFE_INTEGER - 2));
     if r.chance(1, 10) {
         ma = pa;
         mi = pa;
+    }
+    // all three numbers within one bit length (keys packed into one integer go wrong in one such window)
+    let windowed = r.chance(1, 4);
+    if windowed {
+        let k = 1 + r.below(50);
+        ma = magnitude(r, k);
+        mi = magnitude(r, k);
+        pa = magnitude(r, k).min(MAX_SAFE_INTEGER - 2);
     }
     let tag = idlist(r, 2);
     let mut tag0 = tag.clone();
@@ -137,6 +145,13 @@ pub fn tie_pool(r: &mut Rng) -> Vec<Version> {
     if ma < MAX_SAFE_INTEGER {
         pool.push(mk(ma + 1, 0, 0, vec![Identifier::Numeric(0)]));
         pool.push(mk(ma + 1, 0, 0, vec![]));
+    }
+    if (windowed || r.chance(1, 4)) && mi < MAX_SAFE_INTEGER {
+        // the next minor: a carry out of the patch field
+        pool.push(mk(ma, mi + 1, 0, vec![]));
+        if r.chance(1, 2) {
+            pool.push(mk(ma, mi + 1, 0, vec![Identifier::Numeric(0)]));
+        }
     }
     if r.chance(1, 2) {
         pool.push(mk(ma, mi, pa, idlist(r, 2)));
